@@ -5,8 +5,8 @@ Import ListNotations.
 Open Scope Z_scope.
 
 Ltac proj :=
-  cbn [wl wi cur hst pref vst pend store task tfin ehs
-       set_wl set_wi_raw set_cur_raw set_hst set_pref set_vst set_pend set_store set_task set_ehs
+  cbn [wl wi cur hst pref vst pend store task tfin ehs sel
+       set_wl set_wi_raw set_cur_raw set_hst set_pref set_vst set_pend set_store set_task set_ehs set_sel
        ls sto loaded fst snd] in *.
 
 (* The working index addresses an entry. *)
@@ -156,6 +156,12 @@ Proof.
   eapply frame_trans; [apply set_wi_frame | apply set_cursor_frame].
 Qed.
 
+Lemma jump_frame c s i p : frame s (jump c s i p).
+Proof.
+  unfold jump. destruct (_ && _); [|apply frame_refl].
+  eapply frame_trans; [apply set_wi_frame | apply set_cursor_frame].
+Qed.
+
 Lemma end_of_history_frame c s : frame s (end_of_history c s).
 Proof.
   unfold end_of_history.
@@ -180,8 +186,8 @@ Proof. apply set_cursor_frame. Qed.
 
 Lemma auto_up_frame c s n g : frame s (auto_up c s n g).
 Proof.
-  unfold auto_up. destruct (0 <? _).
-  - apply cursor_up_frame.
+  unfold auto_up. destruct (0 <? _); [apply cursor_up_frame|].
+  destruct (sel s); [apply frame_refl|].
   - destruct g.
     + eapply frame_trans; [apply history_backward_frame | apply go_start_of_line_frame].
     + apply history_backward_frame.
@@ -189,8 +195,8 @@ Qed.
 
 Lemma auto_down_frame c s n g : frame s (auto_down c s n g).
 Proof.
-  unfold auto_down. destruct (_ <? _).
-  - apply cursor_down_frame.
+  unfold auto_down. destruct (_ <? _); [apply cursor_down_frame|].
+  destruct (sel s); [apply frame_refl|].
   - destruct g.
     + eapply frame_trans; [apply history_forward_frame | apply go_start_of_line_frame].
     + apply history_forward_frame.
@@ -266,7 +272,7 @@ Proof. apply text_eq; [apply flush_frame | apply flush_wi]. Qed.
 Definition is_nav (o : op) : Prop :=
   match o with
   | OBack _ | OFwd _ | OGoto _ | OAutoUp _ _ | OAutoDown _ _ | OEnd
-  | OSetCursor _ | OLeft _ | ORight _ | OValidate _ => True
+  | OSetCursor _ | OLeft _ | ORight _ | OValidate _ | OJump _ _ | OSelect _ => True
   | _ => False
   end.
 Definition is_edit (o : op) : Prop :=
@@ -293,6 +299,8 @@ Proof.
   - apply set_cursor_frame.
   - apply set_cursor_frame.
   - apply validate_frame.
+  - apply jump_frame.
+  - unfold frame; proj; auto.
 Qed.
 
 Lemma step_state_eq c s o : step_state c s o = flush c (snd (fst (step_core c s o))).
@@ -466,14 +474,14 @@ Lemma auto_up_inv c s n g : Inv s -> Inv (auto_up c s n g).
 Proof.
   intros HI. unfold auto_up, cursor_up. destruct (0 <? _).
   - apply set_pref_inv, set_cursor_inv, HI.
-  - destruct g; [apply set_cursor_inv|]; apply history_backward_inv, HI.
+  - destruct (sel s); [exact HI|]. destruct g; [apply set_cursor_inv|]; apply history_backward_inv, HI.
 Qed.
 
 Lemma auto_down_inv c s n g : Inv s -> Inv (auto_down c s n g).
 Proof.
   intros HI. unfold auto_down, cursor_down. destruct (_ <? _).
   - apply set_pref_inv, set_cursor_inv, HI.
-  - destruct g; [apply set_cursor_inv|]; apply history_forward_inv, HI.
+  - destruct (sel s); [exact HI|]. destruct g; [apply set_cursor_inv|]; apply history_forward_inv, HI.
 Qed.
 
 Lemma validate_inv c s sc : Inv s -> Inv (fst (validate c s sc)).
@@ -541,6 +549,10 @@ Proof.
   - apply pop_n_inv, HI.
   - unfold Inv in *; proj; exact HI.
   - apply append_to_history_inv, HI.
+  - apply reset_inv.
+  - unfold jump. destruct ((0 <=? i) && (i <? len (wl s))) eqn:E; [|exact HI].
+    apply andb_true_iff in E as [E1 E2]. apply set_cursor_inv, set_wi_inv. lia.
+  - unfold Inv in *; proj; exact HI.
 Qed.
 
 Lemma step_inv c s o : wf_op o -> Inv s -> Inv (step_state c s o).
